@@ -369,6 +369,32 @@ CLAIMED = {
         'Trusted: TLC; for ROMAN/ARABIC out of domain any error value is '
         'accepted (Excel documents #VALUE!).',
         'DESIGN.md 4/C20'),
+    'C19': (
+        'TLC model checking of Lookup.tla (ideal Match vs the linear scans of '
+        'xmatch, wild cards, typed criteria) over all key vectors of the pool '
+        '+ replay of every case on MATCH / LOOKUP / VLOOKUP / HLOOKUP / '
+        'INDEX(MATCH) / INDEX / COUNTIF / SUMIF / AVERAGEIF',
+        'Lookup.tla: for every strictly ascending / descending numeric or text '
+        'vector of length <= 4 (also with one element of another type '
+        'inserted), every mixed vector with duplicates of length <= 3 (exact '
+        'mode) and 17 keys (inside / outside / between, other type, wild '
+        'cards, escaped wild cards) TLC checks that the transcribed scans of '
+        'xmatch with their early exits equal the definition '
+        '(ScanRefinesMatch), and CriteriaPartition for the six operators. '
+        'Each of the 24 282 cases is an obligation replayed on the real '
+        'functions through Cell: MATCH on an array literal (both '
+        'orientations) and on a referenced range with blank cells, VLOOKUP / '
+        'HLOOKUP / LOOKUP / INDEX(MATCH) on tables built around the key line, '
+        'INDEX on all shapes <= 3x3 (rows / columns 1..4), COUNTIF / SUMIF / '
+        'AVERAGEIF with the criterion written as users write it; SUMIF over '
+        'powers of ten identifies exactly which positions were selected. '
+        'Bounded by the pool; quick replays a 9 000-case sample.',
+        'Trusted: TLC; the Match / Holds definitions as the statement of '
+        'Excel\'s rules. "<>" against an element of another type is accepted '
+        'either way (Excel counts it, the property compares within the type). '
+        'INDEX with row / column 0 is modelled but not replayed (the property '
+        'does not state it; the library returns the first element).',
+        'DESIGN.md 4/C19'),
 }
 
 REASON_PENDING = 'check not built yet in this round (planned, see DESIGN.md section 8)'
